@@ -10,6 +10,12 @@ for pid in props:
     m = meta["properties"].get(pid, {})
     modfile = os.path.join(ROOT, "harness", "props", pid.lower() + ".py")
     if os.path.exists(modfile) and m.get("claimed"):
+        # the leading "<n> theorems" of the level text is kept equal to what Props/<id>*.lean declare
+        import re, glob
+        n = 0
+        for f in glob.glob(os.path.join(ROOT, "lean", "BioCantor", "Props", pid + "*.lean")):
+            n += len(re.findall(r"^theorem ", open(f).read(), flags=re.M))
+        m["level_text"] = re.sub(r"^\d+ theorems", f"{n} theorems", m["level_text"])
         checks.append({
             "property_id": pid,
             "quick_cmd": f"./check {pid} --tier quick",
